@@ -12,7 +12,15 @@ import (
 
 // build constructs the library message for p through the public setters only.
 // why != "" means the setter API cannot express p (not a defect).
-func build(p *codec.Packet) (m message.Message, why string, err error) {
+func build(p *codec.Packet) (m message.Message, why string, err error) { return buildV(p, 0) }
+
+// connectWillVariants is the number of setter orders buildV knows for a
+// CONNECT that carries a will: every one of them describes the same fields.
+const connectWillVariants = 4
+
+// buildV builds the message through the setters; variant selects one of the
+// equivalent call orders (0 = the canonical one).
+func buildV(p *codec.Packet, variant int) (m message.Message, why string, err error) {
 	switch p.Type {
 	case codec.CONNECT:
 		c := message.NewConnectMessage()
@@ -30,13 +38,36 @@ func build(p *codec.Packet) (m message.Message, why string, err error) {
 			}
 		}
 		if p.WillFlag() {
-			c.SetWillTopic(append([]byte(nil), p.WillTopic...))
-			c.SetWillMessage(append([]byte(nil), p.WillMessage...))
-			c.SetWillFlag(true)
-			if err := c.SetWillQos(p.WillQoS()); err != nil {
+			wt, wm := append([]byte(nil), p.WillTopic...), append([]byte(nil), p.WillMessage...)
+			qr := func() error {
+				if err := c.SetWillQos(p.WillQoS()); err != nil {
+					return err
+				}
+				c.SetWillRetain(p.WillRetain())
+				return nil
+			}
+			switch variant {
+			case 1: // the flag is implied by a non-empty will topic
+				c.SetWillTopic(wt)
+				c.SetWillMessage(wm)
+				err = qr()
+			case 2: // message first
+				c.SetWillMessage(wm)
+				c.SetWillTopic(wt)
+				err = qr()
+			case 3: // QoS and retain first
+				err = qr()
+				c.SetWillTopic(wt)
+				c.SetWillMessage(wm)
+			default:
+				c.SetWillTopic(wt)
+				c.SetWillMessage(wm)
+				c.SetWillFlag(true)
+				err = qr()
+			}
+			if err != nil {
 				return nil, "", err
 			}
-			c.SetWillRetain(p.WillRetain())
 		}
 		if p.UserFlag() {
 			if len(p.Username) == 0 {
